@@ -235,6 +235,9 @@ smtp_ehlo(void)
 		break;
 	}
 
+	/* a new EHLO ends a mail transaction like HELO and RSET do */
+	freedata();
+
 	char *authtypes = smtp_authstring();
 
 	if (authtypes != NULL) {
